@@ -139,7 +139,11 @@ def main():
                         continue
                     A1, A2 = Qm @ a1, Qm @ a2
                     if simkind == "hyperelastic":
-                        mat = Models.HyperElastic.SaintVenantKirchhoff(dim, 4.0, 4.0, thickness=thickness) if dim == 3 or True else None
+                        if dim == 3:
+                            # fibre and sheet directions out of every coordinate plane, moved with the problem
+                            mat = Models.HyperElastic.HolzapfelOgden(3, 0.5, 4.0, 1.2, 5.0, 0.6, 3.0, 0.3, 2.0, 10.0, 0.2, 0.1, A1 / np.linalg.norm(A1), A2 / np.linalg.norm(A2))
+                        else:
+                            mat = Models.HyperElastic.SaintVenantKirchhoff(dim, 4.0, 4.0, thickness=thickness)
                         s = Simulations.HyperElastic(mesh, mat)
                     else:
                         s = Simulations.Elastic(mesh, make_law(rng, lk, dim, A1[:dim] if dim == 2 else A1, A2[:dim] if dim == 2 else A2, thickness))
@@ -233,6 +237,37 @@ def main():
                 except Exception as ex:  # noqa: BLE001
                     res.fail(f"moved beam raises timo={timo} dim={bdim}", f"{type(ex).__name__}: {str(ex)[:150]}", ident)
                     continue
+                if bdim == 3 and variant == "rotation":
+                    # in place: the member is turned about its own line on the existing model (only the section axes change,
+                    # no node moves): the response must turn with it
+                    try:
+                        pA0 = off
+                        ax0 = np.array([1.0, 0, 0])
+                        ang0 = rng.choice([0.6, 1.1, 2.0])
+                        Q0 = rodrigues(tuple(ax0), ang0)
+                        beams0 = [Models.Beam.Isotropic(3, Line(Point(*pA0), Point(*(pA0 + ax0 * L)), L / 3), sect, 1000.0, 0.25, (0.0, 1.0, 0.0))]
+                        mesh0 = Mesher().Mesh_Beams(beams0, elemType=ElemType(et))
+                        s0_ = Simulations.Beam(mesh0, Models.Beam.BeamStructure(beams0), useTimoshenko=timo)
+                        nA0, nB0 = mesh0.Nodes_Point(Point(*pA0)), mesh0.Nodes_Point(Point(*(pA0 + ax0 * L)))
+                        both = []
+                        for turned in (False, True):
+                            Qt = Q0 if turned else np.eye(3)
+                            if turned:
+                                beams0[0].yAxis = tuple(Q0 @ np.array([0.0, 1.0, 0.0]))
+                            s0_.Bc_Init()
+                            s0_.add_dirichlet(nA0, [0] * 6, ["x", "y", "z", "rx", "ry", "rz"])
+                            s0_.add_neumann(nB0, list(Qt @ f) + list(Qt @ mom), ["x", "y", "z", "rx", "ry", "rz"])
+                            both.append(np.asarray(s0_.Solve()).reshape(mesh0.Nn, -1).copy())
+                        ua, ub = both
+                        want_b = np.c_[ua[:, :3] @ Q0.T, ua[:, 3:] @ Q0.T]
+                        res.case(("beam", et, timo, "in-place turn about the member"))
+                        res.count("beam:in-place turn")
+                        err0 = np.abs(ub - want_b).max() / (1e-30 + np.abs(want_b).max())
+                        if err0 > 1e-7:
+                            res.fail(f"beam frame indifference timo={timo} dim=3 elem={et} section axes changed in place", f"after beam.yAxis was turned by {ang0} rad about the member on the existing model, the response differs from the turned response by {err0:.2e} (relative)",
+                                     dict(ident, variant="in-place turn about the member", angle=ang0))
+                    except Exception as ex:  # noqa: BLE001
+                        res.fail(f"in-place beam turn raises timo={timo}", f"{type(ex).__name__}: {str(ex)[:150]}", ident)
                 u0, u1 = sols
                 res.case(("beam", et, timo, bdim, variant))
                 res.count("beam:" + variant)
@@ -266,4 +301,6 @@ def main():
 
 
 if __name__ == "__main__":
-    main()
+    from tools.harness._common import run
+
+    run(main)
